@@ -353,10 +353,12 @@ func (fr *frame) chanSend(chv value, v value) {
 		}
 		w.g.recvVal, w.g.recvOk, w.g.selCase = v, true, w.caseI
 		s.ready(w.g)
+		s.point(fr)
 		return
 	}
 	if len(ch.buf) < ch.cap {
 		ch.buf = append(ch.buf, v)
+		s.point(fr)
 		return
 	}
 	w := &waiter{g: s.cur, val: v}
@@ -379,6 +381,7 @@ func (fr *frame) chanRecv(chv value, elem types.Type) (value, bool) {
 		s.block(fr, "recv on nil chan")
 	}
 	if v, ok, done := ch.tryRecv(s); done {
+		s.point(fr)
 		if !ok {
 			return zero(elem), false
 		}
